@@ -99,12 +99,12 @@ type BatchOutcome struct {
 	Files    map[string]string
 	Sites    *gen.SiteMap
 	Inputs   int
-	Observed map[Pair]string             // pair -> first input (bits) on which it was observed
-	Reported map[string][]map[Pair]bool  // cfg -> repetition -> reported pairs
-	Escaped  map[string][]map[int]bool   // cfg -> repetition -> source ids reported as escaping
+	Observed map[Pair]string              // pair -> first input (bits) on which it was observed
+	Reported map[string][]map[Pair]bool   // cfg -> repetition -> reported pairs
+	Escaped  map[string][]map[int]bool    // cfg -> repetition -> source ids reported as escaping
 	Raw      map[string][]ana.TaintResult // cfg -> raw results
-	Waived   map[int][]string            // chain id -> offenders
-	Status   string                      // ok | native-fail | analyzer-<status>
+	Waived   map[int][]string             // chain id -> offenders
+	Status   string                       // ok | native-fail | analyzer-<status>
 	Detail   string
 	AnaS     float64
 	ValidLog map[string][]gen.Event // bits -> events (only kept when KeepEvents)
@@ -118,8 +118,8 @@ type ChainOpts struct {
 	// VBitsN is the number of validator outcome bits to enumerate (0: none).
 	VBitsN int
 	// Observe overrides how events become obligations; nil: every raw marker at a sink is an observed flow.
-	Observe func(evs []gen.Event, add func(Pair))
-	Watchdog time.Duration
+	Observe      func(evs []gen.Event, add func(Pair))
+	Watchdog     time.Duration
 	NativeRepeat int
 	NativeEnv    []string
 	// Analysis is "taint" (default) or "backtrace".
